@@ -57,6 +57,11 @@ type InnerMap map[uint8]bool
 type MapNested map[int8]InnerMap
 type MapPtr map[uint16]*Pair
 type MapShape map[uint8]Shape
+type MapArrKey map[Arr4]uint8
+type SetU8 map[uint8]Empty
+type Matrix []SliceU16B
+type Bigs []*big.Int
+type Times []time.Time
 
 // ---------------------------------------------------------------- structs
 
@@ -347,6 +352,13 @@ func init() {
 	add("NoDupBytes", NoDupBytes{})
 	must(api.RegisterTypeSettings(PtrSlice{}, lp(b8)))
 	add("PtrSlice", PtrSlice{})
+	must(api.RegisterTypeSettings(Matrix{}, lp(b16)))
+	add("Matrix", Matrix{})
+	must(api.RegisterTypeSettings(Bigs{}, lp(b8)))
+	add("Bigs", Bigs{})
+	must(api.RegisterTypeSettings(Times{}, lp(b8).WithArrayRules(rules(
+		serializer.ArrayValidationModeLexicalOrdering|serializer.ArrayValidationModeNoDuplicates))))
+	add("Times", Times{})
 	must(api.RegisterTypeSettings(Empties{}, lp(b8)))
 	add("Empties", Empties{})
 
@@ -358,6 +370,10 @@ func init() {
 	add("InnerMap", InnerMap{})
 	must(api.RegisterTypeSettings(MapNested{}, lp(b8)))
 	add("MapNested", MapNested{})
+	must(api.RegisterTypeSettings(MapArrKey{}, lp(b8)))
+	add("MapArrKey", MapArrKey{})
+	must(api.RegisterTypeSettings(SetU8{}, lp(b8).WithMaxLen(3)))
+	add("SetU8", SetU8{})
 	must(api.RegisterTypeSettings(MapPtr{}, lp(b8)))
 	add("MapPtr", MapPtr{})
 
